@@ -306,7 +306,7 @@ Definition spec_mutate (s : aspec) (o : op) (x : out) : option aspec :=
   match o, x with
   | OCBatch items, XBatch rs => spec_batch s items rs
   | (OAppend _ _ _ _ | OApply _ _ _ _ _ | OCApp _ _ _ | OTrunc _ _ | OCTrunc _ _ | OTrim _ _ _ _
-     | OCkpt _ _ _ _ | OCkptM _ _ _ _ _ _), XErr _ => Some s
+     | OCkpt _ _ _ _ | OCkptM _ _ _ _ _ _ | ODiscard _), XErr _ => Some s
   | OAppend c _ base recs, XApp b l n =>
     let lg := as_log s c in
     match recs with
@@ -358,6 +358,7 @@ Definition spec_mutate (s : aspec) (o : op) (x : out) : option aspec :=
   | OCkptM c e l h _ _, XOk => Some (set_log s c (set_ck (as_log s c) (e, l, h)))
   | ORelease _, XOk => Some s
   | OReopen, XOk => Some s
+  | ODiscard c, XOk => Some (set_log s c al_init)       (* the channel is gone: an empty log from sequence 1 *)
   | _, _ => None
   end.
 
